@@ -359,7 +359,23 @@ def _F26():
     return False
 
 
-REPLAYS = {'F24': _F24, 'F25': _F25, 'F26': _F26, 'F1-linear': _F1('lin'), 'F1-quadratic': _F1('quad'), 'F1-cubic': _F1('cubic'), 'F2': _F2, 'F3': _F3, 'F4': _F4,
+def _F27():
+    """quadratic spline with linear tails and ONE bin: the constructor accepts it, every call raises IndexError"""
+    import nflows.transforms as T
+    try:
+        t = T.PiecewiseQuadraticCDF(shape=[2], num_bins=1, tails='linear', tail_bound=1.0)
+    except Exception:
+        return False          # rejected at construction: no longer "accepted and then failing"
+    try:
+        y, ld = t(torch.zeros(3, 2))
+        return not bool(torch.isfinite(y).all() and torch.isfinite(ld).all())
+    except IndexError:
+        return True
+    except Exception:
+        return True
+
+
+REPLAYS = {'F24': _F24, 'F25': _F25, 'F26': _F26, 'F27': _F27, 'F1-linear': _F1('lin'), 'F1-quadratic': _F1('quad'), 'F1-cubic': _F1('cubic'), 'F2': _F2, 'F3': _F3, 'F4': _F4,
            'F6': _F6, 'F9': _F9, 'F12': _F12, 'F13': _F13, 'F16': _F16, 'F17': _F17}
 
 
